@@ -19,6 +19,7 @@ import (
 	"fmt"
 	"os"
 	"path/filepath"
+	"sort"
 	"strings"
 	"sync"
 	"sync/atomic"
@@ -218,27 +219,27 @@ type vCtl struct {
 	self *vSelfEnd
 	dir  string
 	// model
-	active     bool // a source is running according to the statement (started, not stopped, not ended by itself)
-	selfEnded  bool
-	settled    bool
-	nchan      int
-	npre, ns   int
-	wActive    bool
-	wPaused    bool
-	wDir       string
-	hasProj    map[int]bool
-	comment    string
-	commentBad bool // comment.txt has been made uncreatable
-	mapLoaded  bool
-	mapPixels  int
-	chanNum0   int  // channel number of channel index 0
-	archiving  bool // a raw-data request may still be pending
-	lenUnknown bool // a refused length change may have been applied to some channels: shapes are no longer predictable
-	stateFull  bool // writes to the current run's experiment-state file fail: label requests may be refused
+	active       bool // a source is running according to the statement (started, not stopped, not ended by itself)
+	selfEnded    bool
+	settled      bool
+	nchan        int
+	npre, ns     int
+	wActive      bool
+	wPaused      bool
+	wDir         string
+	hasProj      map[int]bool
+	comment      string
+	commentBad   bool // comment.txt has been made uncreatable
+	mapLoaded    bool
+	mapPixels    int
+	chanNum0     int  // channel number of channel index 0
+	archiving    bool // a raw-data request may still be pending
+	lenUnknown   bool // a refused length change may have been applied to some channels: shapes are no longer predictable
+	stateFull    bool // writes to the current run's experiment-state file fail: label requests may be refused
 	forceExtTrig bool // the next eligible START of this session gets the external-trigger-file fault
-	emtOn      bool // an edge-multi request was accepted: validity of record lengths now also depends on its parameters
-	hist       []string
-	dead       bool
+	emtOn        bool // an edge-multi request was accepted: validity of record lengths now also depends on its parameters
+	hist         []string
+	dead         bool
 }
 
 func (k *vCtl) note(format string, a ...any) {
@@ -623,7 +624,7 @@ func (k *vCtl) reqWriteControl() {
 				fault = " [experiment-state file uncreatable]"
 				want = "err"
 				k.c.Cov("io_fault_state_file", 1)
-			} else if k.kind == "lancero" && (vChance(r, 0.12) || k.forceExtTrig) {
+			} else if k.kind == "lancero" && vCtlFocus == "" && (vChance(r, 0.12) || k.forceExtTrig) {
 				k.forceExtTrig = false
 				// single I/O fault: the external-trigger file of this run cannot be created (only the TDM source
 				// delivers external triggers). The file is created by block processing, not by the request.
@@ -782,6 +783,48 @@ func (k *vCtl) reqCoupling() {
 	}
 }
 
+// groupState reads the connection set in use from inside the core loop (as a queued request), so it is ordered with the requests.
+func (k *vCtl) groupState() (*GroupTriggerState, bool) {
+	if k.dead || !k.active || k.selfEnded || k.sc.ActiveSource == nil {
+		return nil, false
+	}
+	var st *GroupTriggerState
+	var err error
+	ok := vWatched(k.c, "request (harness) group state", 15*time.Second, func() {
+		err = k.sc.runLaterIfActive(func() {
+			g := k.sc.ActiveSource.ComputeGroupTriggerState()
+			st = &g
+			k.sc.queuedResults <- nil
+		})
+	})
+	if !ok {
+		k.dead = true
+		return nil, false
+	}
+	return st, err == nil && st != nil
+}
+
+// vGroupKey is a canonical text of a connection set (empty receiver lists dropped, receivers sorted).
+func vGroupKey(g *GroupTriggerState) string {
+	if g == nil {
+		return "<nil>"
+	}
+	var keys []int
+	for s, rx := range g.Connections {
+		if len(rx) > 0 {
+			keys = append(keys, s)
+		}
+	}
+	sort.Ints(keys)
+	var b strings.Builder
+	for _, s := range keys {
+		rx := append([]int(nil), g.Connections[s]...)
+		sort.Ints(rx)
+		fmt.Fprintf(&b, "%d:%v ", s, rx)
+	}
+	return "{" + strings.TrimSpace(b.String()) + "}"
+}
+
 func (k *vCtl) reqGroupTrigger() {
 	r := k.c.R
 	conn := map[int][]int{}
@@ -799,6 +842,18 @@ func (k *vCtl) reqGroupTrigger() {
 	case 3:
 		conn[0] = []int{-3}
 		want = "err"
+	case 4:
+		// partly valid: the valid pairs of a request that is answered with an error may or may not take effect,
+		// but clients must be told whatever the set in use is afterwards
+		if k.nchan >= 2 {
+			conn[0] = []int{1, k.nchan + 3}
+		} else {
+			conn[0] = []int{k.nchan + 3}
+		}
+		if vChance(r, 0.5) {
+			conn[k.nchan+2] = []int{0}
+		}
+		want = "err"
 	default:
 		for i := 0; i < 1+r.Intn(3); i++ {
 			conn[r.Intn(k.nchan)] = append(conn[r.Intn(k.nchan)], r.Intn(k.nchan))
@@ -806,6 +861,48 @@ func (k *vCtl) reqGroupTrigger() {
 	}
 	gts := GroupTriggerState{Connections: conn}
 	var okay bool
+	before, haveBefore := k.groupState()
+	vClientReset(true)
+	defer func() {
+		msgs := vClientSnapshot()
+		vClientReset(false)
+		if !haveBefore || k.dead {
+			return
+		}
+		after, ok := k.groupState()
+		if !ok {
+			return
+		}
+		// the drainer may lag behind the core loop by a moment
+		for i := 0; i < 200 && len(msgs) == 0 && vGroupKey(before) != vGroupKey(after); i++ {
+			time.Sleep(time.Millisecond)
+			msgs = vClientSnapshot()
+		}
+		var last *GroupTriggerState
+		for _, m := range vClientSnapshot() {
+			msgs = append(msgs, m)
+		}
+		for _, m := range msgs {
+			if m.tag == "GROUPTRIGGER" {
+				if st, ok := m.state.(*GroupTriggerState); ok {
+					last = st
+				} else if st, ok := m.state.(GroupTriggerState); ok {
+					last = &st
+				}
+			}
+		}
+		k.c.Cov("grouptrigger_report_checks", 1)
+		switch {
+		case last != nil && vGroupKey(last) != vGroupKey(after):
+			k.c.Violate("c09:reported-state", "after a group-trigger request (%v) clients were sent GROUPTRIGGER %s, the set in use is %s\nhistory: %v", conn, vGroupKey(last), vGroupKey(after), k.hist)
+			k.dead = true
+		case last == nil && vGroupKey(before) != vGroupKey(after):
+			k.c.Violate("c09:reported-state", "a group-trigger request (%v) changed the set in use from %s to %s, but no GROUPTRIGGER update was sent to clients\nhistory: %v", conn, vGroupKey(before), vGroupKey(after), k.hist)
+			k.dead = true
+		case vGroupKey(before) != vGroupKey(after):
+			k.c.Cov("grouptrigger_changes_reported", 1)
+		}
+	}()
 	switch r.Intn(5) {
 	case 0, 1, 2:
 		k.do(fmt.Sprintf("AddGroupTriggerCoupling(%v)", conn), k.queuedWant(want), func() error { return k.sc.AddGroupTriggerCoupling(gts, &okay) })
@@ -1080,7 +1177,11 @@ func vRunControl(c *vCase) {
 		if k.selfEnded {
 			c.Cov("requests_after_self_termination", 1)
 		}
-		switch r.Intn(16) {
+		sel := r.Intn(16)
+		if vCtlFocus == "group" { // C09's server-level sessions: mostly connection edits
+			sel = vPick(r, 12, 12, 12, 12, 11, 0, 15)
+		}
+		switch sel {
 		case 0, 1:
 			k.reqTriggers()
 		case 2:
@@ -1151,6 +1252,32 @@ func vRunControl(c *vCase) {
 	c.Cov("effects_run", int(atomic.LoadInt64(&mon.effects)))
 	c.Cov("blocks_processed", int(atomic.LoadInt64(&mon.processEnds)))
 	c.Cov("blocks_held_for_a_request", int(atomic.LoadInt64(&mon.heldCount)))
+}
+
+// vCtlFocus narrows the request mix of a session ("" = all request types).
+var vCtlFocus string
+
+// vRunControlGroupFocus runs one server-level session made mostly of connection edits, for C09's "reported to clients" clause.
+func vRunControlGroupFocus(c *vCase) {
+	stop := make(chan struct{})
+	done := make(chan struct{})
+	go func() { // nobody consumes the published records in such a session
+		defer close(done)
+		for {
+			select {
+			case <-vRecTap:
+			case <-vSumTap:
+			case <-stop:
+				return
+			}
+		}
+	}()
+	vCtlFocus = "group"
+	vRunControl(c)
+	vCtlFocus = ""
+	close(stop)
+	<-done
+	c.Cov("server_level_sessions", 1)
 }
 
 func vCtlSetup(tier string) {
